@@ -50,8 +50,8 @@ def hash_update(M, elems):
         elif type(e) in (list, tuple):
             M.update(repr(type(e)).encode('utf-8'))
             hash_update(M, enumerate(e))
-        elif type(e) == set:
-            M.update(b'set')
+        elif type(e) in (set, frozenset):
+            M.update(b'set' if type(e) == set else b'frozenset')
             # With randomized hashing, different runs of Python might result in
             # different orders, so sort. We cannot trust that all the elements
             # in the set will be comparable, so we convert them to their hashes
